@@ -45,6 +45,8 @@ mut('m26_format_error_formats_line', 'errors.py', "    lines.append(u'{0}{1}'.fo
 # the scanner without line numbers (NameFormatParser) is forgotten in get_error_context
 mut('m27_lineless_context_typeerror', 'scanner.py', "        if error_lineno is not None:\n            error_lineno0 = error_lineno - 1", "        if True:\n            error_lineno0 = error_lineno - 1")
 mut('m28_lineless_str', 'scanner.py', "pos = u' in line {0}'.format(self.lineno) if self.lineno is not None else ''", "pos = u' in line {0}'.format(self.lineno + 0)")
+# PluginNotFound tests the group instead of the name: no extension -> AssertionError
+mut('m29_plugin_no_extension_assert', 'plugin/__init__.py', "        if not name.startswith('.'):\n            message = u'plugin {plugin_group}.{name} not found'.format(\n                plugin_group=plugin_group,\n                name=name,\n            )\n        else:\n            assert plugin_group.endswith('.suffixes')", "        if not plugin_group.endswith('.suffixes'):\n            message = u'plugin {plugin_group}.{name} not found'.format(\n                plugin_group=plugin_group,\n                name=name,\n            )\n        else:\n            assert name.startswith('.')")
 # harmless
 mut('h1_refactor_capture', 'errors.py', """    global captured_errors
     captured_errors = []
